@@ -30,7 +30,7 @@ RULE = (
 def oracle(ctx, form, obs):
     """Closure and uniqueness on the implementation's output."""
     paths = obs["binds"] + obs["body"] + obs["setvalues"]
-    v = ctx.driver.call("form.closed", instance=obs["instance"], paths=paths)
+    v = ctx.driver.call("form.closed", instance=obs["instance_attrs"], paths=paths)
     if not v["ok"]:
         ctx.fail(Failure("dangling-ref", f"nodeset/ref without instance node: {v['bad'][:3]}", {"form": form},
                          extra={"bad": v["bad"]}))
@@ -39,13 +39,23 @@ def oracle(ctx, form, obs):
         ctx.fail(Failure("duplicate-bind", f"more than one bind for {dup[:3]}", {"form": form}))
 
     def sibs(node):
-        names = [k["n"] for k in node["k"] if not k["t"]]
+        names = [k["n"] for k in node["k"] if not k["t"] and not k["n"].startswith("@")]
         if len(set(names)) != len(names):
             ctx.fail(Failure("duplicate-sibling", f"instance siblings not unique under {node['n']}: {names}", {"form": form}))
         for k in node["k"]:
             sibs(k)
 
     sibs(obs["instance"])
+    # a repeat is rendered as <group ref=P><repeat nodeset=P>: that pair shares its path by design
+    for cls in (lambda t: t not in ("group", "repeat"), lambda t: t == "group", lambda t: t == "repeat"):
+        ctl_refs = [r for t, r in obs["ctl"] if cls(t)]
+        if len(set(ctl_refs)) != len(ctl_refs):
+            dup = sorted({b for b in ctl_refs if ctl_refs.count(b) > 1})
+            ctx.fail(Failure("duplicate-control-ref", f"two body controls share the ref {dup[:3]}", {"form": form}))
+    for p_ in paths:
+        if not p_.startswith("/"):
+            ctx.fail(Failure("relative-ref", f"nodeset/ref is not an absolute path: {p_!r}", {"form": form}))
+            break
 
 
 def form_case(ctx, form):
@@ -80,6 +90,11 @@ def explore(ctx, factor, bs):
         if rng.random() < 0.3:
             kw = dict(p_default=0.4, p_settings=0.3)
         form = formcommon.structure_form(rng, tier_big=big, **kw)
+        if rng.random() < 0.25:
+            # features outside the Lean fragment (the model answers `unsupported`): the closure /
+            # uniqueness oracle is still evaluated on the implementation's output
+            form = formcommon.add_extras(rng, form)
+            ctx.count("extras")
         form_case(ctx, form)
 
 
